@@ -78,21 +78,30 @@ def r1(ctx):
 
 
 def _template_tokens(model):
-    """{template key: emitted CRTF token} from the writer's crtf_strings literal."""
+    """{template key: (emitted CRTF token, template)} from the writer's line-template table — a dict literal of strings of
+    the form '{0}<token>[...' inside to_crtf or at module level of its module."""
     sl = model.cls('_ShapeList')
     f = model.method(sl, 'to_crtf')
-    for st in stmts_of(f.node):
-        if isinstance(st, ast.Assign) and norm(st.targets[0]) == 'crtf_strings' and isinstance(st.value, ast.Dict):
-            d = {}
-            for k, v in zip(st.value.keys, st.value.values):
-                try:
-                    txt = ast.literal_eval(v)
-                except Exception:
-                    continue
-                mm = re.match(r'\{0\}(\w+)\[', txt)
-                d[ast.literal_eval(k)] = (mm.group(1) if mm else None, txt)
-            return f, d
-    raise AnalysisError('C11', '_ShapeList.to_crtf', 'crtf_strings table not found')
+    mod_tree = model.src.parse(f.path)
+    for scope in (f.node, mod_tree):
+        for st in ast.walk(scope):
+            if isinstance(st, ast.Assign) and isinstance(st.value, ast.Dict) and st.value.values:
+                d = {}
+                for k, v in zip(st.value.keys, st.value.values):
+                    try:
+                        txt = ast.literal_eval(v)
+                        key = ast.literal_eval(k)
+                    except Exception:
+                        d = None
+                        break
+                    mm = re.match(r'\{0\}(\w+)\[', txt) if isinstance(txt, str) else None
+                    if mm is None:
+                        d = None
+                        break
+                    d[key] = (mm.group(1), txt)
+                if d and len(d) >= 5:
+                    return f, d
+    raise AnalysisError('C11', '_ShapeList.to_crtf', 'line-template table not found')
 
 
 def _classes(model):
@@ -593,19 +602,32 @@ def _line_regexes(model):
     return out
 
 
-def _writer_meta_string(ctx, label_value):
-    """the `k=v, ...` metadata text the writer appends for a circle with that label (rendered)."""
-    m = ctx.model
-    ser, ev, out = eval_writer(m, m.cls('CircleSkyRegion'), 'fk5', meta={'label': Obj('str', {}, 'L')})
-    joins = []
+def _meta_text_of(ctx, out, key, ph):
+    """the `k=v, ...` metadata text the writer appends to a region line: the shortest string-building sub-term of the
+    writer's value whose rendering mentions `<key>=` and is free of the region line itself."""
+    best = None
     for pc, v in out.returns:
         for x in walk_terms(v):
-            if isinstance(x, App) and x.name == 'apply' and isinstance(x.args[0], App) and x.args[0].name == 'attr:join' \
-                    and isinstance(x.args[1], Tup) and any('label' in show(i, 200) for i in x.args[1].items):
-                joins.append(x)
-    if not joins:
-        return None
-    return _render(joins[0], {'L': label_value})
+            if not (isinstance(x, App) and (x.name in ('fstring', 'binop:Add') or (
+                    x.name == 'apply' and isinstance(x.args[0], App) and x.args[0].name in ('attr:join', 'attr:strip', 'attr:replace')))):
+                continue
+            if key not in show(x, 4000):
+                continue
+            try:
+                txt = _render(x, ph)
+            except AnalysisError:
+                continue
+            if f'{key}=' in txt and '\n' not in txt and '[[' not in txt and '#' not in txt:
+                if best is None or len(txt) < len(best):
+                    best = txt
+    return best
+
+
+def _writer_meta_string(ctx, label_value):
+    """the metadata text written for a circle with that label (rendered)."""
+    m = ctx.model
+    ser, ev, out = eval_writer(m, m.cls('CircleSkyRegion'), 'fk5', meta={'label': Obj('str', {}, 'L')})
+    return _meta_text_of(ctx, out, 'label', {'L': label_value})
 
 
 def _lex_meta(rx, meta_str):
@@ -708,39 +730,9 @@ def r10(ctx):
     """list-valued metadata: every key the reader splits into a list is written in the bracket form it reads back."""
     m = ctx.model
     rx = _line_regexes(m)
-    rp = m.cls('_CRTFRegionParser')
-    cm = rp.methods.get('convert_meta')
-    ctx.need(cm is not None, '_CRTFRegionParser.convert_meta', 'not found')
-    list_keys = None
-    for n in ast.walk(cm.node):
-        if isinstance(n, ast.Compare) and isinstance(n.ops[0], ast.In) and isinstance(n.comparators[0], ast.Tuple) \
-                and isinstance(n.left, ast.Name):
-            vals = [e.value for e in n.comparators[0].elts if isinstance(e, ast.Constant)]
-            if vals and all(isinstance(v, str) for v in vals) and 'corr' in vals:
-                list_keys = vals
-    ctx.need(list_keys, cm.qualname, 'list-valued key tuple not found')
-    visual_keys = set(class_tables(m, 'RegionVisual').get('valid_keys', ()) or ())
-    circ = m.cls('CircleSkyRegion')
     f, templates = _template_tokens(m)
-    A, B = Obj('str', {}, 'A'), Obj('str', {}, 'B')
-    ph = {'A': 'a1', 'B': 'b2'}
-    for key in list_keys:
-        where = 'visual' if key in visual_keys else 'meta'
-        kw = {where: {key: Tup((A, B), 'list')}}
-        kw.setdefault('meta', {})
-        ser, ev, out = eval_writer(m, circ, 'fk5', **kw)
-        meta_term = None
-        for pc, v in out.returns:
-            for x in walk_terms(v):
-                if isinstance(x, App) and x.name == 'apply' and isinstance(x.args[0], App) and x.args[0].name == 'attr:strip' \
-                        and key in show(x.args[0].args[0], 2000):
-                    meta_term = x.args[0].args[0]
-        construct = f'list key {key}'
-        if meta_term is None:
-            ctx.bad(construct, 'not-written', f'a region whose {where} has {key}=[...] is written without it', ser.loc())
-            continue
-        meta_str = _render(meta_term, ph)
-        pars = rx['regex_meta'].findall(meta_str.strip().lstrip(',').strip() + ',')
+
+    def read_back(key, pars):
         pr, sh, reg, _ = eval_reader(m, templates['circle'][1], 'circle', meta_pairs=pars)
         got = None
         if reg is not None:
@@ -750,6 +742,30 @@ def r10(ctx):
                     d = d.args[0]
                 if isinstance(d, DictV) and key in d.keys():
                     got = d.get(key)
+        return got
+
+    # the list-valued keys are discovered semantically: the keys for which the reader, given `key=[a1, b2]`,
+    # stores a list
+    cand = list(class_tables(m, '_CRTFParser').get('valid_global_keys', ()) or ()) + ['label']
+    ctx.need(len(cand) > 5, '_CRTFParser.valid_global_keys', 'key table not found')
+    list_keys = [k for k in cand if isinstance(read_back(k, rx['regex_meta'].findall(f'{k}=[a1, b2],')), Tup)]
+    ctx.need(list_keys, '_CRTFRegionParser.convert_meta', 'the reader stores no key as a list')
+    visual_keys = set(class_tables(m, 'RegionVisual').get('valid_keys', ()) or ())
+    circ = m.cls('CircleSkyRegion')
+    A, B = Obj('str', {}, 'A'), Obj('str', {}, 'B')
+    ph = {'A': 'a1', 'B': 'b2'}
+    for key in list_keys:
+        where = 'visual' if key in visual_keys else 'meta'
+        kw = {where: {key: Tup((A, B), 'list')}}
+        kw.setdefault('meta', {})
+        ser, ev, out = eval_writer(m, circ, 'fk5', **kw)
+        construct = f'list key {key}'
+        meta_str = _meta_text_of(ctx, out, key, ph)
+        if meta_str is None:
+            ctx.bad(construct, 'not-written', f'a region whose {where} has {key}=[...] is written without it', ser.loc())
+            continue
+        pars = rx['regex_meta'].findall(meta_str.strip().lstrip(',').strip() + ',')
+        got = read_back(key, pars)
         items = None
         if isinstance(got, Tup):
             items = []
